@@ -164,9 +164,13 @@ pub fn collect_len<I: TrustedLen>(it: I) -> usize {
     h
 }
 
-/// hint re-read after every step, front only
-pub fn steps_front<I: Iterator>(mut it: I, cap: usize) {
-    let mut h = hint(&it);
+/// One front pass with the hint re-read after every step: an item is yielded only while the hint
+/// is positive, the hint drops by exactly one per item, exhaustion happens exactly at hint zero —
+/// and therefore (asserted as well) the number of items equals the hint read before consumption.
+pub fn walk_front<I: Iterator>(mut it: I, cap: usize) -> usize {
+    let h0 = hint(&it);
+    assert!(h0 <= cap, "announced length is within the range expected for the parameters");
+    let mut h = h0;
     let mut k = 0usize;
     while k <= cap {
         match it.next() {
@@ -183,12 +187,16 @@ pub fn steps_front<I: Iterator>(mut it: I, cap: usize) {
         }
         k += 1;
     }
+    assert!(k == h0, "front iteration yields exactly the announced number of items");
+    h0
 }
 
-/// hint re-read after every step of a symbolic interleaving of `next` and `next_back`;
-/// returns true when both ends were used
-pub fn steps_both<I: DoubleEndedIterator>(mut it: I, cap: usize) -> bool {
-    let mut h = hint(&it);
+/// The same over a symbolic interleaving of `next` and `next_back` (all-front and all-back are
+/// among the interleavings); second component: both ends were used.
+pub fn walk_both<I: DoubleEndedIterator>(mut it: I, cap: usize) -> (usize, bool) {
+    let h0 = hint(&it);
+    assert!(h0 <= cap, "announced length is within the range expected for the parameters");
+    let mut h = h0;
     let mut k = 0usize;
     let mut mixed = (false, false);
     while k <= cap {
@@ -213,13 +221,83 @@ pub fn steps_both<I: DoubleEndedIterator>(mut it: I, cap: usize) -> bool {
         }
         k += 1;
     }
-    mixed.0 && mixed.1
+    assert!(k == h0, "interleaved iteration yields exactly the announced number of items");
+    (h0, mixed.0 && mixed.1)
 }
 
+/// Copies of the STEPS observation with the adaptor named in the messages: the adaptors built on
+/// `TrustIter` share one harness (`c09_steps_trustiter_adaptors_*`) and must stay distinguishable.
+macro_rules! tagged_steps {
+    ($name:ident, $m_pos:literal, $m_drop:literal, $m_end:literal) => {
+        pub fn $name<I: Iterator>(mut it: I, cap: usize) {
+            let mut h = hint(&it);
+            let mut k = 0usize;
+            while k <= cap {
+                match it.next() {
+                    Some(_) => {
+                        assert!(h >= 1, $m_pos);
+                        let h2 = hint(&it);
+                        assert!(h2 + 1 == h, $m_drop);
+                        h = h2;
+                    },
+                    None => {
+                        assert!(h == 0, $m_end);
+                        break;
+                    },
+                }
+                k += 1;
+            }
+        }
+    };
+}
+tagged_steps!(
+    steps_shift,
+    "shift: an item is yielded only while the current hint is positive",
+    "shift: the hint drops by exactly one with every yielded item",
+    "shift: the iterator is exhausted only when its current hint is zero"
+);
+tagged_steps!(
+    steps_vshift,
+    "vshift: an item is yielded only while the current hint is positive",
+    "vshift: the hint drops by exactly one with every yielded item",
+    "vshift: the iterator is exhausted only when its current hint is zero"
+);
+tagged_steps!(
+    steps_vdiff,
+    "vdiff: an item is yielded only while the current hint is positive",
+    "vdiff: the hint drops by exactly one with every yielded item",
+    "vdiff: the iterator is exhausted only when its current hint is zero"
+);
+tagged_steps!(
+    steps_vpct,
+    "vpct_change: an item is yielded only while the current hint is positive",
+    "vpct_change: the hint drops by exactly one with every yielded item",
+    "vpct_change: the iterator is exhausted only when its current hint is zero"
+);
+tagged_steps!(
+    steps_part,
+    "vpartition: an item is yielded only while the current hint is positive",
+    "vpartition: the hint drops by exactly one with every yielded item",
+    "vpartition: the iterator is exhausted only when its current hint is zero"
+);
+tagged_steps!(
+    steps_argpart,
+    "varg_partition: an item is yielded only while the current hint is positive",
+    "varg_partition: the hint drops by exactly one with every yielded item",
+    "varg_partition: the iterator is exhausted only when its current hint is zero"
+);
+tagged_steps!(
+    steps_rolling,
+    "rolling_custom_iter: an item is yielded only while the current hint is positive",
+    "rolling_custom_iter: the hint drops by exactly one with every yielded item",
+    "rolling_custom_iter: the iterator is exhausted only when its current hint is zero"
+);
+
 pub const COLLECT: u8 = 1;
+/// count only (adaptors built on `TrustIter`, whose hint is stale after the first item: D2)
 pub const TOTAL: u8 = 2;
-pub const STEPS: u8 = 4;
-pub const ALL: u8 = 7;
+/// steps + count
+pub const WALK: u8 = 4;
 
 fn same_len(h: usize, want: Option<usize>) {
     if let Some(w) = want {
@@ -236,17 +314,23 @@ pub fn observe<I: TrustedLen, F: Fn() -> I>(p: u8, mk: F, cap: usize, want: Opti
     if p & TOTAL != 0 {
         same_len(total_front(mk(), cap), want);
     }
-    if p & STEPS != 0 {
-        steps_front(mk(), cap);
+    if p & WALK != 0 {
+        same_len(walk_front(mk(), cap), want);
     }
 }
 
-/// all observations for a double-ended iterator (container iterators, mapped views)
-pub fn observe_de<I: TIterator, F: Fn() -> I>(mk: F, cap: usize, want: Option<usize>) -> bool {
-    same_len(collect_len(mk()), want);
-    same_len(total_front(mk(), cap), want);
-    total_back(mk(), cap);
-    steps_both(mk(), cap)
+/// observations for a double-ended iterator (container iterators, mapped views)
+pub fn observe_de<I: TIterator, F: Fn() -> I>(p: u8, mk: F, cap: usize, want: Option<usize>) -> bool {
+    if p & COLLECT != 0 {
+        same_len(collect_len(mk()), want);
+    }
+    if p & TOTAL != 0 {
+        same_len(total_front(mk(), cap), want);
+        total_back(mk(), cap);
+    }
+    let (h, mixed) = walk_both(mk(), cap);
+    same_len(h, want);
+    mixed
 }
 
 /// `#[kani::proof]` wrapper: `$call` returns the vacuity witness of the instance.
@@ -266,119 +350,124 @@ macro_rules! h {
 // 1. container iterators
 // ---------------------------------------------------------------------------------------------
 
-pub fn titer_vec<const N: usize>() -> bool {
+pub const CW: u8 = COLLECT | WALK;
+
+pub fn titer_vec<const N: usize>(p: u8) -> bool {
     let x: [i32; N] = kani::any();
     let v: Vec<i32> = x.to_vec();
-    let w = observe_de(|| v.titer(), N + 1, Some(N));
-    observe_de(|| x.titer(), N + 1, Some(N));
+    let w = observe_de(p, || v.titer(), N + 1, Some(N));
+    observe_de(p, || x.titer(), N + 1, Some(N));
     let sl: &[i32] = &x[..];
-    observe_de(|| sl.titer(), N + 1, Some(N));
+    observe_de(p, || sl.titer(), N + 1, Some(N));
     w
 }
 
-pub fn titer_into<const N: usize>() -> bool {
+pub fn titer_into<const N: usize>(p: u8) -> bool {
     let x: [i32; N] = kani::any();
     let v: Vec<i32> = x.to_vec();
-    let w = observe_de(|| v.clone().into_titer(), N + 1, Some(N));
+    let w = observe_de(p, || v.clone().into_titer(), N + 1, Some(N));
     let h = hint(&v.titer());
     let c: Vec<i32> = v.titer().collect_trusted_vec1();
     assert!(c.len() == h, "collect_trusted_vec1 returns the announced length");
     w
 }
 
-pub fn titer_arc<const N: usize>() -> bool {
+pub fn titer_arc<const N: usize>(p: u8) -> bool {
     let x: [i32; N] = kani::any();
     let v = Arc::new(x.to_vec());
-    observe_de(|| v.titer(), N + 1, Some(N))
+    observe_de(p, || v.titer(), N + 1, Some(N))
 }
 
-pub fn titer_deque<const N: usize>() -> bool {
+pub fn titer_deque<const N: usize>(p: u8) -> bool {
     let x: [i32; N] = kani::any();
     let rot: usize = kani::any();
     kani::assume(rot <= N);
     let v = deque_rot(&x[..], rot);
     kani::cover!(rot > 0 || N == 0, "ring buffer rotated");
-    observe_de(|| v.titer(), N + 1, Some(N))
+    observe_de(p, || v.titer(), N + 1, Some(N))
 }
 
-pub fn titer_nd<const N: usize>() -> bool {
+pub fn titer_nd<const N: usize>(p: u8) -> bool {
     let x: [i32; N] = kani::any();
     let a = nd_owned(&x[..]);
-    let w = observe_de(|| a.titer(), N + 1, Some(N));
+    let w = observe_de(p, || a.titer(), N + 1, Some(N));
     let view = a.view();
-    observe_de(|| view.titer(), N + 1, Some(N));
+    observe_de(p, || view.titer(), N + 1, Some(N));
     w
 }
 
-pub fn titer_nd_rev<const N: usize>() -> bool {
+pub fn titer_nd_rev<const N: usize>(p: u8) -> bool {
     let x: [i32; N] = kani::any();
     let st = nd_rev_storage(&x[..]);
     let rv = st.slice(s![..;-1]);
-    observe_de(|| rv.titer(), N + 1, Some(N))
+    observe_de(p, || rv.titer(), N + 1, Some(N))
 }
 
-pub fn titer_nd_step<const N: usize>() -> bool {
+pub fn titer_nd_step<const N: usize>(p: u8) -> bool {
     let x: [i32; N] = kani::any();
     let st2 = nd_step_storage(&x[..], 2);
     let sv = st2.slice(s![..;2]);
-    observe_de(|| sv.titer(), N + 1, Some(N))
+    observe_de(p, || sv.titer(), N + 1, Some(N))
 }
 
-pub fn titer_opt<const N: usize>() -> bool {
+pub fn titer_opt<const N: usize>(p: u8) -> bool {
     let x: [Option<i32>; N] = kani::any();
     let v: Vec<Option<i32>> = x.to_vec();
     let o = v.opt();
-    let w = observe_de(|| o.titer(), N + 1, Some(N));
-    observe(ALL, || (&o).into_iter(), N + 1, Some(N));
+    let w = observe_de(p, || o.titer(), N + 1, Some(N));
+    observe(p, || (&o).into_iter(), N + 1, Some(N));
     w
 }
 
 /// the mapped views of Vec1View / TIter (`titer().map(..)`)
-pub fn titer_mapped<const N: usize>() -> bool {
+pub fn titer_mapped<const N: usize>(p: u8) -> bool {
     let x: [Option<i32>; N] = kani::any();
-    let v: Vec<Option<i32>> = x.to_vec();
-    let w = observe_de(|| v.to_opt_iter(), N + 1, Some(N));
-    observe_de(|| v.opt_iter_cast::<i64>(), N + 1, Some(N));
-    observe_de(|| TIter::map(&v, |e| e.is_some()), N + 1, Some(N));
+    let w = observe_de(p, || x.to_opt_iter(), N + 1, Some(N));
+    observe_de(p, || x.opt_iter_cast::<i64>(), N + 1, Some(N));
+    observe_de(p, || TIter::map(&x, |e| e.is_some()), N + 1, Some(N));
     let y: [i32; N] = kani::any();
-    observe_de(|| y.iter_cast::<i64>(), N + 1, Some(N));
+    observe_de(p, || y.iter_cast::<i64>(), N + 1, Some(N));
     w
 }
 
-h!(c09_titer_vec_n0, 6, {
-    titer_vec::<0>();
-    titer_into::<0>();
-    titer_arc::<0>();
-    titer_opt::<0>();
+// empty containers: iteration only (a trusted collection of nothing into a capacity-0 Vec is
+// pointer arithmetic on dangling addresses, which costs CBMC minutes and decides nothing)
+h!(c09_titer_empty, 6, {
+    titer_vec::<0>(WALK);
+    titer_arc::<0>(WALK);
+    titer_opt::<0>(WALK);
+    titer_deque::<0>(WALK);
+    true
+});
+h!(#[cfg(feature = "thorough")] c09_titer_empty_nd, 6, {
+    titer_into::<0>(WALK);
+    titer_nd::<0>(WALK);
     true
 });
 h!(c09_titer_vec_n1, 6, {
-    titer_vec::<1>();
-    titer_into::<1>();
+    titer_vec::<1>(CW | TOTAL);
+    titer_into::<1>(CW);
     true
 });
-h!(c09_titer_vec_n3, 8, titer_vec::<3>());
-h!(c09_titer_into_n3, 8, titer_into::<3>());
-h!(c09_titer_arc_n3, 8, titer_arc::<3>());
-h!(c09_titer_deque_n3, 8, titer_deque::<3>());
-h!(c09_titer_nd_n0, 6, {
-    titer_nd::<0>();
-    titer_deque::<0>();
-    true
+h!(c09_titer_vec_n3, 8, titer_vec::<3>(CW | TOTAL));
+h!(c09_titer_into_arc_n3, 8, {
+    titer_arc::<3>(CW);
+    titer_into::<3>(CW)
 });
-h!(c09_titer_nd_n3, 8, titer_nd::<3>());
-h!(c09_titer_ndrev_n3, 8, titer_nd_rev::<3>());
-h!(c09_titer_ndstep_n3, 8, titer_nd_step::<3>());
-h!(c09_titer_opt_n3, 8, titer_opt::<3>());
-h!(c09_titer_mapped_n2, 7, titer_mapped::<2>());
+h!(c09_titer_deque_n3, 8, titer_deque::<3>(CW));
+h!(c09_titer_nd_n3, 8, titer_nd::<3>(CW));
+h!(c09_titer_ndrev_n3, 11, titer_nd_rev::<3>(CW));
+h!(#[cfg(feature = "thorough")] c09_titer_ndstep_n3, 11, titer_nd_step::<3>(CW));
+h!(c09_titer_opt_n3, 8, titer_opt::<3>(CW));
+h!(c09_titer_mapped_n2, 7, titer_mapped::<2>(CW));
 
-h!(#[cfg(feature = "thorough")] c09_titer_vec_n4, 9, titer_vec::<4>());
-h!(#[cfg(feature = "thorough")] c09_titer_deque_n4, 9, titer_deque::<4>());
-h!(#[cfg(feature = "thorough")] c09_titer_nd_n4, 9, titer_nd::<4>());
-h!(#[cfg(feature = "thorough")] c09_titer_ndrev_n4, 9, titer_nd_rev::<4>());
-h!(#[cfg(feature = "thorough")] c09_titer_ndstep_n4, 9, titer_nd_step::<4>());
-h!(#[cfg(feature = "thorough")] c09_titer_opt_n4, 9, titer_opt::<4>());
-h!(#[cfg(feature = "thorough")] c09_titer_mapped_n4, 9, titer_mapped::<4>());
+h!(#[cfg(feature = "thorough")] c09_titer_vec_n4, 9, titer_vec::<4>(CW | TOTAL));
+h!(#[cfg(feature = "thorough")] c09_titer_deque_n4, 9, titer_deque::<4>(CW | TOTAL));
+h!(#[cfg(feature = "thorough")] c09_titer_nd_n4, 9, titer_nd::<4>(CW | TOTAL));
+h!(#[cfg(feature = "thorough")] c09_titer_ndrev_n4, 11, titer_nd_rev::<4>(CW | TOTAL));
+h!(#[cfg(feature = "thorough")] c09_titer_ndstep_n4, 11, titer_nd_step::<4>(CW | TOTAL));
+h!(#[cfg(feature = "thorough")] c09_titer_opt_n4, 9, titer_opt::<4>(CW | TOTAL));
+h!(#[cfg(feature = "thorough")] c09_titer_mapped_n4, 9, titer_mapped::<4>(CW | TOTAL));
 
 // ---------------------------------------------------------------------------------------------
 // 2. TrustIter itself (root of every `to_trust(len)` adaptor)
@@ -392,10 +481,10 @@ pub fn trustiter_total() -> bool {
     len == 3
 }
 
-/// ... and the hint after partial consumption (D2).
+/// ... and the hint after partial consumption (D2): fails on the pinned tree.
 pub fn trustiter_steps() -> bool {
     let len = any_rem(3);
-    steps_both((0..len).to_trust(len), 4)
+    walk_both((0..len).to_trust(len), 4).1
 }
 
 h!(c09_trustiter_total, 7, trustiter_total());
@@ -412,18 +501,14 @@ pub fn shift_params(len: usize, within: bool) -> (i32, i32, bool) {
     let na = n.unsigned_abs() as usize;
     if within {
         kani::assume(na <= len);
-    } else {
-        kani::cover!(na > len && n < 0, "n < -len");
-        kani::cover!(na > len && n > 0, "n > len");
     }
-    kani::cover!(n == 0, "n == 0");
     (n, fill, if len >= 2 { na > 0 && na < len } else { na >= len })
 }
 
 pub fn shift_vec<const N: usize>(p: u8, within: bool) -> bool {
-    let x: [i32; N] = kani::any();
+    let v: Vec<i32> = kani::any::<[i32; N]>().to_vec();
     let (n, fill, w) = shift_params(N, within);
-    observe(p, || x.titer().shift(n, fill), N + 1, Some(N));
+    observe(p, || v.titer().shift(n, fill), N + 1, Some(N));
     w
 }
 
@@ -434,21 +519,21 @@ pub fn shift_abs(p: u8, within: bool) -> bool {
     w
 }
 
-// D1: expected to fail on the pinned tree (n < -len over-yields, n > len underflows `len - n_abs`)
-h!(c09_shift_total_vec_n0, 7, shift_vec::<0>(TOTAL, false));
-h!(c09_shift_total_vec_n2, 9, shift_vec::<2>(TOTAL, false));
-h!(c09_shift_collect_vec_n1, 8, shift_vec::<1>(COLLECT, false));
+// D1 — expected to fail on the pinned tree: for n < -len the iterator yields |n| items while
+// announcing len (count mismatch; out-of-bounds `ptr::write` in the trusted collector), for
+// n > len `len - n_abs` underflows.
+h!(c09_shift_beyond_total_n0, 7, shift_vec::<0>(TOTAL, false));
+h!(c09_shift_beyond_total_n2, 9, shift_vec::<2>(TOTAL, false));
+h!(c09_shift_beyond_collect_n1, 8, shift_vec::<1>(COLLECT, false));
 // the in-range lags on their own: hold
-h!(c09_shift_within_vec_n3, 8, shift_vec::<3>(COLLECT | TOTAL, true));
-// D2 through shift
-h!(c09_shift_steps_vec_n2, 7, shift_vec::<2>(STEPS, true));
+h!(c09_shift_within_vec_n2, 7, shift_vec::<2>(TOTAL, true));
 
-h!(#[cfg(feature = "thorough")] c09_shift_total_vec_n1, 8, shift_vec::<1>(COLLECT | TOTAL, false));
-h!(#[cfg(feature = "thorough")] c09_shift_total_vec_n3, 10, shift_vec::<3>(COLLECT | TOTAL, false));
-h!(#[cfg(feature = "thorough")] c09_shift_total_vec_n4, 11, shift_vec::<4>(COLLECT | TOTAL, false));
-h!(#[cfg(feature = "thorough")] c09_shift_total_abs, 10, shift_abs(COLLECT | TOTAL, false));
+h!(#[cfg(feature = "thorough")] c09_shift_within_collect_n2, 7, shift_vec::<2>(COLLECT, true));
+h!(#[cfg(feature = "thorough")] c09_shift_within_vec_n3, 8, shift_vec::<3>(COLLECT | TOTAL, true));
+h!(#[cfg(feature = "thorough")] c09_shift_beyond_vec_n3, 10, shift_vec::<3>(COLLECT | TOTAL, false));
+h!(#[cfg(feature = "thorough")] c09_shift_beyond_vec_n4, 11, shift_vec::<4>(TOTAL, false));
+h!(#[cfg(feature = "thorough")] c09_shift_beyond_abs, 10, shift_abs(COLLECT | TOTAL, false));
 h!(#[cfg(feature = "thorough")] c09_shift_within_abs, 8, shift_abs(COLLECT | TOTAL, true));
-h!(#[cfg(feature = "thorough")] c09_shift_steps_abs, 8, shift_abs(STEPS, true));
 
 // ---------------------------------------------------------------------------------------------
 // 4. vshift (guarded), lag over the full i32 range
@@ -465,10 +550,10 @@ pub fn lag_params(len: usize) -> (i32, bool) {
 }
 
 pub fn vshift_vec<const N: usize>(p: u8) -> bool {
-    let x: [Option<i32>; N] = kani::any();
+    let v: Vec<Option<i32>> = kani::any::<[Option<i32>; N]>().to_vec();
     let (n, w) = lag_params(N);
     let fill: Option<Option<i32>> = kani::any();
-    observe(p, || x.titer().vshift(n, fill), N + 1, Some(N));
+    observe(p, || v.titer().vshift(n, fill), N + 1, Some(N));
     w
 }
 
@@ -480,21 +565,19 @@ pub fn vshift_abs(p: u8) -> bool {
     w
 }
 
-h!(c09_vshift_total_vec_n012, 7, {
-    vshift_vec::<0>(COLLECT | TOTAL);
-    vshift_vec::<1>(TOTAL);
-    vshift_vec::<2>(TOTAL)
+h!(c09_vshift_total_vec_n01, 6, {
+    vshift_vec::<0>(TOTAL);
+    vshift_vec::<1>(TOTAL)
 });
 h!(c09_vshift_total_vec_n3, 8, vshift_vec::<3>(TOTAL));
 h!(c09_vshift_collect_vec_n2, 7, vshift_vec::<2>(COLLECT));
 h!(c09_vshift_total_abs, 8, vshift_abs(TOTAL));
-h!(c09_vshift_steps_vec_n2, 7, vshift_vec::<2>(STEPS));
 
+h!(#[cfg(feature = "thorough")] c09_vshift_total_vec_n2, 7, vshift_vec::<2>(TOTAL));
 h!(#[cfg(feature = "thorough")] c09_vshift_total_vec_n4, 9, vshift_vec::<4>(TOTAL));
 h!(#[cfg(feature = "thorough")] c09_vshift_collect_vec_n3, 8, vshift_vec::<3>(COLLECT));
 h!(#[cfg(feature = "thorough")] c09_vshift_collect_vec_n4, 9, vshift_vec::<4>(COLLECT));
 h!(#[cfg(feature = "thorough")] c09_vshift_collect_abs, 8, vshift_abs(COLLECT));
-h!(#[cfg(feature = "thorough")] c09_vshift_steps_abs, 8, vshift_abs(STEPS));
 
 // ---------------------------------------------------------------------------------------------
 // 5. vdiff / vpct_change (views), lag over the full i32 range
@@ -512,45 +595,43 @@ pub fn small_arr<const N: usize>() -> [i32; N] {
 
 /// i32 elements in -100..=100 (the subtraction cannot overflow), non-null fill
 pub fn vdiff_vec<const N: usize>(p: u8) -> bool {
-    let x: [i32; N] = small_arr();
+    let v: Vec<i32> = small_arr::<N>().to_vec();
     let (n, w) = lag_params(N);
     let fill = small();
-    observe(p, || x.vdiff(n, Some(fill)), N + 1, Some(N));
+    observe(p, || v.vdiff(n, Some(fill)), N + 1, Some(N));
     w
 }
 
 pub fn vpct_vec<const N: usize>(p: u8) -> bool {
-    let x: [i32; N] = small_arr();
+    let v: Vec<i32> = small_arr::<N>().to_vec();
     let (n, w) = lag_params(N);
-    observe(p, || x.vpct_change(n), N + 1, Some(N));
+    observe(p, || v.vpct_change(n), N + 1, Some(N));
     w
 }
 
-h!(c09_vdiff_total_vec_n012, 7, {
-    vdiff_vec::<0>(COLLECT | TOTAL);
-    vdiff_vec::<1>(TOTAL);
-    vdiff_vec::<2>(TOTAL)
+h!(c09_vdiff_total_vec_n01, 6, {
+    vdiff_vec::<0>(TOTAL);
+    vdiff_vec::<1>(TOTAL)
 });
 h!(c09_vdiff_total_vec_n3, 8, vdiff_vec::<3>(TOTAL));
 h!(c09_vdiff_collect_vec_n2, 7, vdiff_vec::<2>(COLLECT));
-h!(c09_vdiff_steps_vec_n2, 7, vdiff_vec::<2>(STEPS));
-h!(c09_vpct_total_vec_n012, 7, {
-    vpct_vec::<0>(COLLECT | TOTAL);
-    vpct_vec::<1>(TOTAL);
-    vpct_vec::<2>(TOTAL)
+h!(c09_vpct_total_vec_n01, 6, {
+    vpct_vec::<0>(TOTAL);
+    vpct_vec::<1>(TOTAL)
 });
 h!(c09_vpct_total_vec_n3, 8, vpct_vec::<3>(TOTAL));
 h!(c09_vpct_collect_vec_n2, 7, vpct_vec::<2>(COLLECT));
-h!(c09_vpct_steps_vec_n2, 7, vpct_vec::<2>(STEPS));
 
+h!(#[cfg(feature = "thorough")] c09_vdiff_total_vec_n2, 7, vdiff_vec::<2>(TOTAL));
 h!(#[cfg(feature = "thorough")] c09_vdiff_total_vec_n4, 9, vdiff_vec::<4>(TOTAL));
 h!(#[cfg(feature = "thorough")] c09_vdiff_collect_vec_n3, 8, vdiff_vec::<3>(COLLECT));
+h!(#[cfg(feature = "thorough")] c09_vpct_total_vec_n2, 7, vpct_vec::<2>(TOTAL));
 h!(#[cfg(feature = "thorough")] c09_vpct_total_vec_n4, 9, vpct_vec::<4>(TOTAL));
 h!(#[cfg(feature = "thorough")] c09_vpct_collect_vec_n3, 8, vpct_vec::<3>(COLLECT));
 
 // ---------------------------------------------------------------------------------------------
 // 6. map-based adaptors: abs/vabs, ffill(_mask), bfill(_mask), fill(_mask), vclip
-//    (all three observations; concrete array input and abstract inner iterator)
+//    (trusted collection + steps; concrete array input and abstract inner iterator)
 // ---------------------------------------------------------------------------------------------
 
 pub fn nonmin_arr<const N: usize>() -> [i32; N] {
@@ -563,32 +644,33 @@ pub fn nonmin_arr<const N: usize>() -> [i32; N] {
     x
 }
 
-pub fn abs_vec<const N: usize>() -> bool {
-    let x: [i32; N] = nonmin_arr();
-    observe(ALL, || x.titer().abs(), N + 1, Some(N));
+pub fn abs_vec<const N: usize>(p: u8) -> bool {
+    let x: Vec<i32> = nonmin_arr::<N>().to_vec();
+    observe(p, || x.titer().abs(), N + 1, Some(N));
     let y: [Option<i32>; N] = kani::any();
     let mut i = 0;
     while i < N {
         kani::assume(y[i] != Some(i32::MIN));
         i += 1;
     }
-    observe(ALL, || y.titer().vabs(), N + 1, Some(N));
+    let y = y.to_vec();
+    observe(p, || y.titer().vabs(), N + 1, Some(N));
     true
 }
 
 pub fn abs_abs() -> bool {
     let rem = any_rem(3);
-    observe(ALL, || AbsIter::with_len(rem, nonmin_i32).abs(), 4, Some(rem));
-    observe(ALL, || AbsIter::with_len(rem, nonmin_opt).vabs(), 4, Some(rem));
+    observe(CW, || AbsIter::with_len(rem, nonmin_i32).abs(), 4, Some(rem));
+    observe(CW, || AbsIter::with_len(rem, nonmin_opt).vabs(), 4, Some(rem));
     rem == 3
 }
 
-pub fn ffill_vec<const N: usize>() -> bool {
-    let x: [Option<i32>; N] = kani::any();
+pub fn ffill_vec<const N: usize>(p: u8) -> bool {
+    let x: Vec<Option<i32>> = kani::any::<[Option<i32>; N]>().to_vec();
     let d: Option<Option<i32>> = kani::any();
     let k: Option<i32> = kani::any();
-    observe(ALL, || x.titer().ffill(d), N + 1, Some(N));
-    observe(ALL, || x.titer().ffill_mask(move |e: &Option<i32>| *e == k, d), N + 1, Some(N));
+    observe(p, || x.titer().ffill(d), N + 1, Some(N));
+    observe(p, || x.titer().ffill_mask(move |e: &Option<i32>| *e == k, d), N + 1, Some(N));
     true
 }
 
@@ -596,35 +678,40 @@ pub fn ffill_abs() -> bool {
     let rem = any_rem(3);
     let d: Option<Option<i32>> = kani::any();
     let k: Option<i32> = kani::any();
-    observe(ALL, || AbsIter::with_len(rem, any_opt).ffill(d), 4, Some(rem));
-    observe(ALL, || AbsIter::with_len(rem, any_opt).ffill_mask(move |e: &Option<i32>| *e == k, d), 4, Some(rem));
+    observe(CW, || AbsIter::with_len(rem, any_opt).ffill(d), 4, Some(rem));
+    observe(CW, || AbsIter::with_len(rem, any_opt).ffill_mask(move |e: &Option<i32>| *e == k, d), 4, Some(rem));
     rem == 3
 }
 
-pub fn bfill_vec<const N: usize>() -> bool {
-    let x: [Option<i32>; N] = kani::any();
+pub fn bfill_vec<const N: usize>(p: u8) -> bool {
+    let x: Vec<Option<i32>> = kani::any::<[Option<i32>; N]>().to_vec();
     let d: Option<Option<i32>> = kani::any();
     let k: Option<i32> = kani::any();
-    observe(ALL, || x.titer().bfill(d), N + 1, Some(N));
-    observe(ALL, || x.titer().bfill_mask(move |e: &Option<i32>| *e == k, d), N + 1, Some(N));
+    observe(p, || x.titer().bfill(d), N + 1, Some(N));
+    observe(p, || x.titer().bfill_mask(move |e: &Option<i32>| *e == k, d), N + 1, Some(N));
     true
 }
 
+/// `bfill` collects its reversed pass into a Vec: the remaining length of the abstract inner
+/// iterator is enumerated (1, 2, 3) instead of symbolic (a Vec of symbolic capacity exhausts the
+/// solver's memory); the empty case is run with the iteration-only observation
 pub fn bfill_abs() -> bool {
-    let rem = any_rem(3);
     let d: Option<Option<i32>> = kani::any();
     let k: Option<i32> = kani::any();
-    observe(ALL, || AbsIter::with_len(rem, any_opt).bfill(d), 4, Some(rem));
-    observe(ALL, || AbsIter::with_len(rem, any_opt).bfill_mask(move |e: &Option<i32>| *e == k, d), 4, Some(rem));
-    rem == 3
+    observe(WALK, || AbsIter::with_len(0, any_opt).bfill(d), 4, Some(0));
+    observe(CW, || AbsIter::with_len(1, any_opt).bfill(d), 4, Some(1));
+    observe(CW, || AbsIter::with_len(2, any_opt).bfill_mask(move |e: &Option<i32>| *e == k, d), 4, Some(2));
+    observe(CW, || AbsIter::with_len(3, any_opt).bfill(d), 4, Some(3));
+    observe(WALK, || AbsIter::with_len(3, any_opt).bfill_mask(move |e: &Option<i32>| *e == k, d), 4, Some(3));
+    true
 }
 
-pub fn fill_vec<const N: usize>() -> bool {
-    let x: [Option<i32>; N] = kani::any();
+pub fn fill_vec<const N: usize>(p: u8) -> bool {
+    let x: Vec<Option<i32>> = kani::any::<[Option<i32>; N]>().to_vec();
     let d: Option<i32> = kani::any();
     let k: Option<i32> = kani::any();
-    observe(ALL, || x.titer().fill(d), N + 1, Some(N));
-    observe(ALL, || x.titer().fill_mask(move |e: &Option<i32>| *e == k, d), N + 1, Some(N));
+    observe(p, || x.titer().fill(d), N + 1, Some(N));
+    observe(p, || x.titer().fill_mask(move |e: &Option<i32>| *e == k, d), N + 1, Some(N));
     true
 }
 
@@ -632,153 +719,223 @@ pub fn fill_abs() -> bool {
     let rem = any_rem(3);
     let d: Option<i32> = kani::any();
     let k: Option<i32> = kani::any();
-    observe(ALL, || AbsIter::with_len(rem, any_opt).fill(d), 4, Some(rem));
-    observe(ALL, || AbsIter::with_len(rem, any_opt).fill_mask(move |e: &Option<i32>| *e == k, d), 4, Some(rem));
+    observe(CW, || AbsIter::with_len(rem, any_opt).fill(d), 4, Some(rem));
+    observe(CW, || AbsIter::with_len(rem, any_opt).fill_mask(move |e: &Option<i32>| *e == k, d), 4, Some(rem));
     rem == 3
 }
 
-pub fn vclip_vec<const N: usize>() -> bool {
-    let x: [Option<i32>; N] = kani::any();
-    let lo: Option<i32> = kani::any();
-    let hi: Option<i32> = kani::any();
-    kani::cover!(lo.is_none() && hi.is_none(), "no bounds");
-    kani::cover!(lo.is_some() && hi.is_none(), "lower bound only");
-    kani::cover!(lo.is_none() && hi.is_some(), "upper bound only");
-    kani::cover!(lo.is_some() && hi.is_some(), "both bounds");
-    observe(ALL, || x.titer().vclip(lo, hi), N + 1, Some(N));
+/// the four bound modes are literal at the call sites (the boxed iterator's dynamic type then is
+/// known to the symbolic execution; a symbolic mode costs 5x), the bound values are symbolic
+pub fn vclip_vec<const N: usize>(p: u8) -> bool {
+    let x: Vec<Option<i32>> = kani::any::<[Option<i32>; N]>().to_vec();
+    let lo: i32 = kani::any();
+    let hi: i32 = kani::any();
+    observe(p, || x.titer().vclip(Some(lo), Some(hi)), N + 1, Some(N));
+    observe(p, || x.titer().vclip(Some(lo), None), N + 1, Some(N));
+    observe(p, || x.titer().vclip(None, Some(hi)), N + 1, Some(N));
+    observe(p, || x.titer().vclip(None, None), N + 1, Some(N));
     true
 }
 
 pub fn vclip_abs() -> bool {
     let rem = any_rem(3);
-    let lo: Option<i32> = kani::any();
-    let hi: Option<i32> = kani::any();
-    observe(ALL, || AbsIter::with_len(rem, any_opt).vclip(lo, hi), 4, Some(rem));
+    let lo: i32 = kani::any();
+    let hi: i32 = kani::any();
+    observe(CW, || AbsIter::with_len(rem, any_opt).vclip(Some(lo), Some(hi)), 4, Some(rem));
+    observe(CW, || AbsIter::with_len(rem, any_opt).vclip(Some(lo), None), 4, Some(rem));
+    observe(CW, || AbsIter::with_len(rem, any_opt).vclip(None, Some(hi)), 4, Some(rem));
+    observe(CW, || AbsIter::with_len(rem, any_opt).vclip(None, None), 4, Some(rem));
     rem == 3
 }
 
-/// the tail of `winsorize`: `iter_cast::<f64>().vclip(min, max)` with arbitrary (also NaN) bounds
+/// the tail of `winsorize`: `iter_cast::<f64>().vclip(min, max)`; bounds arbitrary floats, the
+/// null-ness of the bounds literal
 pub fn winsor_tail<const N: usize>() -> bool {
-    let x: [i32; N] = kani::any();
+    let x: Vec<i32> = kani::any::<[i32; N]>().to_vec();
     let lo: f64 = kani::any();
     let hi: f64 = kani::any();
-    kani::cover!(lo.is_nan() && !hi.is_nan(), "lower bound null");
-    observe(ALL, || x.iter_cast::<f64>().vclip(lo, hi), N + 1, Some(N));
+    kani::assume(!lo.is_nan() && !hi.is_nan());
+    observe(CW, || x.iter_cast::<f64>().vclip(lo, hi), N + 1, Some(N));
+    observe(CW, || x.iter_cast::<f64>().vclip(f64::NAN, hi), N + 1, Some(N));
+    observe(WALK, || x.iter_cast::<f64>().vclip(f64::NAN, f64::NAN), N + 1, Some(N));
     true
 }
 
-h!(c09_abs_vec_n03, 8, {
-    abs_vec::<0>();
-    abs_vec::<3>()
+h!(c09_maps_empty, 6, {
+    abs_vec::<0>(WALK);
+    ffill_vec::<0>(WALK);
+    bfill_vec::<0>(WALK);
+    fill_vec::<0>(WALK);
+    vclip_vec::<0>(WALK)
 });
+h!(c09_abs_vec_n3, 8, abs_vec::<3>(CW));
 h!(c09_abs_abs, 8, abs_abs());
-h!(c09_ffill_vec_n03, 8, {
-    ffill_vec::<0>();
-    ffill_vec::<3>()
-});
+h!(c09_ffill_vec_n3, 8, ffill_vec::<3>(CW));
 h!(c09_ffill_abs, 8, ffill_abs());
-h!(c09_bfill_vec_n03, 8, {
-    bfill_vec::<0>();
-    bfill_vec::<3>()
-});
+h!(c09_bfill_vec_n3, 8, bfill_vec::<3>(CW));
 h!(c09_bfill_abs, 8, bfill_abs());
-h!(c09_fill_vec_n03, 8, {
-    fill_vec::<0>();
-    fill_vec::<3>()
-});
+h!(c09_fill_vec_n3, 8, fill_vec::<3>(CW));
 h!(c09_fill_abs, 8, fill_abs());
-h!(c09_vclip_vec_n03, 8, {
-    vclip_vec::<0>();
-    vclip_vec::<3>()
-});
+h!(c09_vclip_vec_n3, 8, vclip_vec::<3>(CW));
 h!(c09_vclip_abs, 8, vclip_abs());
 h!(c09_winsor_tail_n2, 7, winsor_tail::<2>());
 
-h!(#[cfg(feature = "thorough")] c09_abs_vec_n4, 9, abs_vec::<4>());
-h!(#[cfg(feature = "thorough")] c09_ffill_vec_n4, 9, ffill_vec::<4>());
-h!(#[cfg(feature = "thorough")] c09_bfill_vec_n4, 9, bfill_vec::<4>());
-h!(#[cfg(feature = "thorough")] c09_fill_vec_n4, 9, fill_vec::<4>());
-h!(#[cfg(feature = "thorough")] c09_vclip_vec_n4, 9, vclip_vec::<4>());
+h!(#[cfg(feature = "thorough")] c09_abs_vec_n4, 9, abs_vec::<4>(CW));
+h!(#[cfg(feature = "thorough")] c09_ffill_vec_n4, 9, ffill_vec::<4>(CW));
+h!(#[cfg(feature = "thorough")] c09_bfill_vec_n4, 9, bfill_vec::<4>(CW));
+h!(#[cfg(feature = "thorough")] c09_fill_vec_n4, 9, fill_vec::<4>(CW));
+h!(#[cfg(feature = "thorough")] c09_vclip_vec_n4, 9, vclip_vec::<4>(CW));
 
 // ---------------------------------------------------------------------------------------------
-// 7. vcut (1-2 values, 2 edges; label count right or wrong)
+// 7. vcut: 1-2 values, 2 edges. `right` / `add_bounds` literal per harness (symbolic flags: no
+//    answer in 900 s); the label count matches (a mismatch is an `Err`, no iterator exists)
 // ---------------------------------------------------------------------------------------------
 
-pub fn vcut_vec<const N: usize, const L: usize>() -> bool {
-    let x: [i32; N] = kani::any();
-    let bins: Vec<i32> = kani::any::<[i32; 2]>().to_vec();
-    let labels: Vec<i32> = kani::any::<[i32; L]>().to_vec();
-    let right: bool = kani::any();
-    let add_bounds: bool = kani::any();
-    let fits = if add_bounds { L == 3 } else { L == 1 };
-    let ok = x.titer().vcut(&bins, &labels, right, add_bounds).is_ok();
-    assert!(ok == fits, "vcut accepts exactly the matching number of labels");
-    if ok {
-        observe(
-            ALL,
-            || match x.titer().vcut(&bins, &labels, right, add_bounds) {
-                Ok(it) => it,
-                Err(_) => unreachable!(),
-            },
-            N + 1,
-            Some(N),
-        );
-    }
-    ok
+macro_rules! vcut_h {
+    ($(#[$m:meta])* $name:ident, $unwind:literal, $N:literal, $L:literal, $right:literal, $ab:literal, $p:expr) => {
+        $(#[$m])*
+        #[kani::proof]
+        #[kani::stub(std::fmt::format, crate::util::fmt_stub)]
+        #[kani::unwind($unwind)]
+        pub fn $name() {
+            let x: Vec<i32> = kani::any::<[i32; $N]>().to_vec();
+            let bins: [i32; 2] = kani::any();
+            let labels: [i32; $L] = kani::any();
+            kani::cover!(bins[0] < bins[1], "ordered edges");
+            observe(
+                $p,
+                || match x.titer().vcut(&bins, &labels, $right, $ab) {
+                    Ok(it) => it,
+                    Err(_) => {
+                        assert!(false, "vcut accepts a matching number of labels");
+                        unreachable!()
+                    },
+                },
+                $N + 1,
+                Some($N),
+            );
+        }
+    };
 }
 
-h!(#[kani::stub(std::fmt::format, crate::util::fmt_stub)] c09_vcut_n1_l1, 7, vcut_vec::<1, 1>());
-h!(#[kani::stub(std::fmt::format, crate::util::fmt_stub)] c09_vcut_n1_l3, 7, vcut_vec::<1, 3>());
-h!(#[cfg(feature = "thorough")] #[kani::stub(std::fmt::format, crate::util::fmt_stub)] c09_vcut_n2_l3, 8, vcut_vec::<2, 3>());
-h!(#[cfg(feature = "thorough")] #[kani::stub(std::fmt::format, crate::util::fmt_stub)] c09_vcut_n2_l1, 8, vcut_vec::<2, 1>());
-h!(#[cfg(feature = "thorough")] #[kani::stub(std::fmt::format, crate::util::fmt_stub)] c09_vcut_n0_l3, 7, vcut_vec::<0, 3>());
+vcut_h!(#[cfg(feature = "thorough")] c09_vcut_n1_right_inner, 7, 1, 1, true, false, WALK);
+vcut_h!(c09_vcut_n1_left_bounds, 7, 1, 3, false, true, WALK);
+vcut_h!(#[cfg(feature = "thorough")] c09_vcut_n1_collect, 7, 1, 1, false, false, COLLECT);
+vcut_h!(#[cfg(feature = "thorough")] c09_vcut_n2_right_bounds, 8, 2, 3, true, true, WALK);
+vcut_h!(#[cfg(feature = "thorough")] c09_vcut_n0_left_inner, 7, 0, 1, false, false, WALK);
 
 // ---------------------------------------------------------------------------------------------
-// 8. vpartition / varg_partition: kth in 0..=N+2, sort and rev symbolic
+// 8. vpartition / varg_partition: kth in 0..=N+2, sort, rev.
+//    kth, sort, rev and the null pattern are literal at every call site, the values symbolic:
+//    a symbolic kth makes the length handed to the sort symbolic, a symbolic flag or valid-count
+//    makes the boxed iterator's dynamic type symbolic (measured: no answer in 900 s at N = 1;
+//    literal: 3-7 s per call).
 // ---------------------------------------------------------------------------------------------
 
-pub fn part_params(len: usize) -> (usize, bool, bool, bool) {
-    let kth: usize = kani::any();
-    kani::assume(kth <= len + 2);
-    let sort: bool = kani::any();
-    let rev: bool = kani::any();
-    kani::cover!(kth + 1 > len, "kth + 1 > len");
-    (kth, sort, rev, if len >= 2 { kth + 1 < len } else { kth + 1 > len })
+macro_rules! part_calls {
+    ($f:ident, $p:expr, $x:expr, $cap:expr; $(($k:literal, $s:literal, $r:literal)),* $(,)?) => {
+        $( observe($p, || $x.$f($k, $s, $r), $cap, None); )*
+    };
 }
 
-pub fn part_vec<const N: usize>(p: u8) -> bool {
-    let x: [Option<i32>; N] = kani::any();
-    let (kth, sort, rev, w) = part_params(N);
-    observe(p, || x.vpartition(kth, sort, rev), N + 3, None);
-    w
+/// quick grid at len 2: kth in {0, 1, 2, 4} (first, last, len, len+2) with both sort flags, rev alternating
+macro_rules! part_grid2 {
+    ($f:ident, $p:expr, $x:expr) => {
+        part_calls!($f, $p, $x, 5;
+            (0, false, false), (0, true, true), (1, false, true), (1, true, false), (2, false, false),
+            (2, true, true), (4, false, true), (4, true, false));
+    };
+}
+/// the other half of the (sort, rev) grid at len 2
+macro_rules! part_grid2b {
+    ($f:ident, $p:expr, $x:expr) => {
+        part_calls!($f, $p, $x, 5;
+            (0, false, true), (0, true, false), (1, false, false), (1, true, true), (2, false, true),
+            (2, true, false), (3, false, false), (3, true, true), (3, false, true), (3, true, false),
+            (4, false, false), (4, true, true));
+    };
+}
+macro_rules! part_grid3 {
+    ($f:ident, $p:expr, $x:expr) => {
+        part_calls!($f, $p, $x, 6;
+            (0, false, false), (0, true, true), (1, false, true), (1, true, false), (2, false, false),
+            (2, true, true), (3, false, true), (3, true, false), (4, false, false), (4, true, true),
+            (5, false, true), (5, true, false));
+    };
 }
 
-pub fn argpart_vec<const N: usize>(p: u8) -> bool {
-    let x: [Option<i32>; N] = kani::any();
-    let (kth, sort, rev, w) = part_params(N);
-    observe(p, || x.varg_partition(kth, sort, rev), N + 3, None);
-    w
+macro_rules! part_h {
+    ($(#[$m:meta])* $name:ident, $unwind:literal, $grid:ident, $f:ident, $p:expr, [$($pat:expr),*]) => {
+        $(#[$m])*
+        #[kani::proof]
+        #[kani::unwind($unwind)]
+        pub fn $name() {
+            let a: i32 = kani::any();
+            let b: i32 = kani::any();
+            let c: i32 = kani::any();
+            let _ = (a, b, c);
+            kani::cover!(a == b, "tie");
+            $( { let x = $pat(a, b, c); $grid!($f, $p, x); } )*
+        }
+    };
 }
 
-h!(c09_vpartition_total_n01, 7, {
-    part_vec::<0>(COLLECT | TOTAL);
-    part_vec::<1>(COLLECT | TOTAL)
-});
-h!(c09_vpartition_total_n2, 8, part_vec::<2>(COLLECT | TOTAL));
-h!(c09_vpartition_total_n3, 9, part_vec::<3>(TOTAL));
-h!(c09_vpartition_steps_n2, 8, part_vec::<2>(STEPS));
-h!(c09_vargpartition_total_n01, 7, {
-    argpart_vec::<0>(COLLECT | TOTAL);
-    argpart_vec::<1>(COLLECT | TOTAL)
-});
-h!(c09_vargpartition_total_n2, 8, argpart_vec::<2>(COLLECT | TOTAL));
-h!(c09_vargpartition_total_n3, 9, argpart_vec::<3>(TOTAL));
-h!(c09_vargpartition_steps_n2, 8, argpart_vec::<2>(STEPS));
+fn p2_ss(a: i32, b: i32, _c: i32) -> Vec<Option<i32>> {
+    vec![Some(a), Some(b)]
+}
+fn p2_ns(a: i32, _b: i32, _c: i32) -> Vec<Option<i32>> {
+    vec![None, Some(a)]
+}
+fn p2_nn(_a: i32, _b: i32, _c: i32) -> Vec<Option<i32>> {
+    vec![None, None]
+}
+fn p3_sss(a: i32, b: i32, c: i32) -> Vec<Option<i32>> {
+    vec![Some(a), Some(b), Some(c)]
+}
+fn p3_sns(a: i32, b: i32, _c: i32) -> Vec<Option<i32>> {
+    vec![Some(a), None, Some(b)]
+}
+fn p3_nsn(a: i32, _b: i32, _c: i32) -> Vec<Option<i32>> {
+    vec![None, Some(a), None]
+}
+fn p3_nnn(_a: i32, _b: i32, _c: i32) -> Vec<Option<i32>> {
+    vec![None, None, None]
+}
+fn p1_s(a: i32, _b: i32, _c: i32) -> Vec<Option<i32>> {
+    vec![Some(a)]
+}
+fn p1_n(_a: i32, _b: i32, _c: i32) -> Vec<Option<i32>> {
+    vec![None]
+}
+fn p0(_a: i32, _b: i32, _c: i32) -> Vec<Option<i32>> {
+    kani::any::<[Option<i32>; 0]>().to_vec()
+}
+macro_rules! part_grid01 {
+    ($f:ident, $p:expr, $x:expr) => {
+        part_calls!($f, $p, $x, 4;
+            (0, false, false), (0, true, true), (1, false, true), (1, true, false), (2, false, false), (3, true, true));
+    };
+}
 
-h!(#[cfg(feature = "thorough")] c09_vpartition_collect_n3, 9, part_vec::<3>(COLLECT));
-h!(#[cfg(feature = "thorough")] c09_vargpartition_collect_n3, 9, argpart_vec::<3>(COLLECT));
-h!(#[cfg(feature = "thorough")] c09_vpartition_total_n4, 10, part_vec::<4>(TOTAL));
-h!(#[cfg(feature = "thorough")] c09_vargpartition_total_n4, 10, argpart_vec::<4>(TOTAL));
+part_h!(c09_vpartition_total_n01, 8, part_grid01, vpartition, TOTAL, [p0, p1_s]);
+part_h!(c09_vpartition_total_n2_valid, 8, part_grid2, vpartition, TOTAL, [p2_ss]);
+part_h!(c09_vpartition_total_n2_nulls, 8, part_grid2, vpartition, TOTAL, [p2_ns]);
+part_h!(c09_vargpartition_total_n01, 8, part_grid01, varg_partition, TOTAL, [p0, p1_s]);
+part_h!(c09_vargpartition_total_n2_valid, 8, part_grid2, varg_partition, TOTAL, [p2_ss]);
+part_h!(c09_vargpartition_total_n2_nulls, 8, part_grid2, varg_partition, TOTAL, [p2_ns]);
+part_h!(#[cfg(feature = "thorough")] c09_vpartition_total_n2_allnull, 8, part_grid2, vpartition, TOTAL, [p2_nn, p1_n]);
+part_h!(#[cfg(feature = "thorough")] c09_vargpartition_total_n2_allnull, 8, part_grid2, varg_partition, TOTAL, [p2_nn, p1_n]);
+part_h!(#[cfg(feature = "thorough")] c09_partition_collect_n2, 8, part_grid2, vpartition, COLLECT, [p2_ns]);
+part_h!(#[cfg(feature = "thorough")] c09_argpartition_collect_n2, 8, part_grid2, varg_partition, COLLECT, [p2_ns]);
+
+part_h!(#[cfg(feature = "thorough")] c09_vpartition_total_n2_rest, 8, part_grid2b, vpartition, TOTAL, [p2_ss, p2_ns, p2_nn]);
+part_h!(#[cfg(feature = "thorough")] c09_vargpartition_total_n2_rest, 8, part_grid2b, varg_partition, TOTAL, [p2_ss, p2_ns, p2_nn]);
+part_h!(#[cfg(feature = "thorough")] c09_vpartition_total_n3_valid, 9, part_grid3, vpartition, TOTAL, [p3_sss]);
+part_h!(#[cfg(feature = "thorough")] c09_vpartition_total_n3_nulls, 9, part_grid3, vpartition, TOTAL, [p3_sns, p3_nsn, p3_nnn]);
+part_h!(#[cfg(feature = "thorough")] c09_vargpartition_total_n3_valid, 9, part_grid3, varg_partition, TOTAL, [p3_sss]);
+part_h!(#[cfg(feature = "thorough")] c09_vargpartition_total_n3_nulls, 9, part_grid3, varg_partition, TOTAL, [p3_sns, p3_nsn, p3_nnn]);
+part_h!(#[cfg(feature = "thorough")] c09_partition_collect_n3, 9, part_grid3, vpartition, COLLECT, [p3_sns]);
+part_h!(#[cfg(feature = "thorough")] c09_argpartition_collect_n3, 9, part_grid3, varg_partition, COLLECT, [p3_sns]);
 
 // ---------------------------------------------------------------------------------------------
 // 9. rolling_custom_iter: window in 1..=N+2
@@ -816,24 +973,123 @@ pub fn rolling_nd<const N: usize>(p: u8) -> bool {
 }
 
 h!(c09_rolling_total_vec_n03, 8, {
-    rolling_vec::<0>(COLLECT | TOTAL);
+    rolling_vec::<0>(TOTAL);
     rolling_vec::<3>(COLLECT | TOTAL)
 });
-h!(c09_rolling_steps_vec_n2, 7, rolling_vec::<2>(STEPS));
 h!(#[cfg(feature = "thorough")] c09_rolling_total_vec_n4, 9, rolling_vec::<4>(COLLECT | TOTAL));
 h!(#[cfg(feature = "thorough")] c09_rolling_total_deque_n2, 7, rolling_deque::<2>(COLLECT | TOTAL));
 h!(#[cfg(feature = "thorough")] c09_rolling_total_nd_n2, 7, rolling_nd::<2>(COLLECT | TOTAL));
 
 // ---------------------------------------------------------------------------------------------
-// 10. range / linspace generators. `tea_core::linspace` is a private module: the `Linspace`
+// 10. D2 seen through the adaptors that wrap their pipeline in `TrustIter` (`to_trust(len)`):
+//     the hint after partial consumption. Expected to fail on the pinned tree in every arm; the
+//     arms are independent (symbolic selector) and name the adaptor in the assertion message.
+//     `shift` is restricted to |n| <= len here (beyond that it is D1, c09_shift_beyond_len).
+// ---------------------------------------------------------------------------------------------
+
+macro_rules! arms {
+    ($sel:ident; $($e:expr),* $(,)?) => {{
+        let mut i = 0u8;
+        $(
+            if $sel == i {
+                $e;
+            }
+            i += 1;
+        )*
+        i
+    }};
+}
+
+/// quick tier: every adaptor at literal parameters, one arm per structural branch (lag > 0, lag < 0,
+/// lag == 0 for the views; the three `to_trust` exits of the partitions; window 1 / inside / beyond)
+#[kani::proof]
+#[kani::unwind(7)]
+pub fn c09_steps_trustiter_adaptors_n2() {
+    let sel: u8 = kani::any();
+    let x: Vec<i32> = small_arr::<2>().to_vec();
+    let y: Vec<Option<i32>> = kani::any::<[Option<i32>; 2]>().to_vec();
+    let sn = vec![Some(x[0]), None];
+    let ss = vec![Some(x[0]), Some(x[1])];
+    let f: i32 = kani::any();
+    let n_arms = arms!(sel;
+        steps_shift(x.titer().shift(1, f), 3),
+        steps_shift(x.titer().shift(-1, f), 3),
+        steps_vshift(y.titer().vshift(1, None), 3),
+        steps_vshift(y.titer().vshift(-1, Some(Some(f))), 3),
+        steps_vdiff(x.vdiff(1, Some(0)), 3),
+        steps_vdiff(x.vdiff(-1, Some(0)), 3),
+        steps_vdiff(x.vdiff(0, Some(0)), 3),
+        steps_vpct(x.vpct_change(1), 3),
+        steps_vpct(x.vpct_change(-1), 3),
+        steps_vpct(x.vpct_change(0), 3),
+        steps_part(sn.vpartition(0, false, false), 3),
+        steps_part(sn.vpartition(1, false, true), 3),
+        steps_part(ss.vpartition(0, true, false), 3),
+        steps_argpart(sn.varg_partition(0, false, false), 3),
+        steps_argpart(sn.varg_partition(1, true, true), 3),
+        steps_argpart(ss.varg_partition(0, true, false), 3),
+        steps_rolling(x.rolling_custom_iter(1, |s: &[i32]| s.len()), 3),
+        steps_rolling(x.rolling_custom_iter(2, |s: &[i32]| s.len()), 3),
+        steps_rolling(x.rolling_custom_iter(4, |s: &[i32]| s.len()), 3),
+    );
+    kani::cover!(sel >= n_arms, "selector free");
+}
+
+/// thorough tier: symbolic parameters, one harness per adaptor
+pub fn steps_sym<const N: usize>(which: u8) -> bool {
+    let x: Vec<i32> = small_arr::<N>().to_vec();
+    let y: Vec<Option<i32>> = kani::any::<[Option<i32>; N]>().to_vec();
+    match which {
+        0 => {
+            let (n, fill, _) = shift_params(N, true);
+            steps_shift(x.titer().shift(n, fill), N + 1);
+        },
+        1 => {
+            let (n, _) = lag_params(N);
+            let fill: Option<Option<i32>> = kani::any();
+            steps_vshift(y.titer().vshift(n, fill), N + 1);
+        },
+        2 => {
+            let (n, _) = lag_params(N);
+            steps_vdiff(x.vdiff(n, Some(0)), N + 1);
+        },
+        3 => {
+            let (n, _) = lag_params(N);
+            steps_vpct(x.vpct_change(n), N + 1);
+        },
+        _ => {
+            let (w, _) = win_param(N);
+            steps_rolling(x.rolling_custom_iter(w, |s: &[i32]| s.len()), N + 1);
+        },
+    }
+    true
+}
+
+h!(#[cfg(feature = "thorough")] c09_steps_shift_n3, 8, steps_sym::<3>(0));
+h!(#[cfg(feature = "thorough")] c09_steps_vshift_n3, 8, steps_sym::<3>(1));
+h!(#[cfg(feature = "thorough")] c09_steps_vdiff_n3, 8, steps_sym::<3>(2));
+h!(#[cfg(feature = "thorough")] c09_steps_vpct_n3, 8, steps_sym::<3>(3));
+h!(#[cfg(feature = "thorough")] c09_steps_rolling_n3, 8, steps_sym::<3>(4));
+
+#[cfg(feature = "thorough")]
+#[kani::proof]
+#[kani::unwind(8)]
+pub fn c09_steps_vshift_abs() {
+    let rem = any_rem(3);
+    let (n, _) = lag_params(rem);
+    let fill: Option<Option<i32>> = kani::any();
+    steps_vshift(AbsIter::with_len(rem, any_opt).vshift(n, fill), 4);
+}
+
+// ---------------------------------------------------------------------------------------------
+// 11. range / linspace generators. `tea_core::linspace` is a private module: the `Linspace`
 //     iterator is reached through `Vec1Create::{range, linspace}` of a probing container whose
-//     `collect_from_trusted` performs the TOTAL and STEPS observations on the iterator it is
-//     handed; the Vec container performs the COLLECT observation.
+//     `collect_from_trusted` performs the step-wise observation on the iterator it is handed;
+//     the Vec container performs the COLLECT observation.
 // ---------------------------------------------------------------------------------------------
 
 pub struct Probe<T> {
     pub h0: usize,
-    pub count: usize,
     pub trusted: bool,
     _p: PhantomData<T>,
 }
@@ -842,7 +1098,7 @@ pub const PROBE_CAP: usize = 7;
 
 impl<T> GetLen for Probe<T> {
     fn len(&self) -> usize {
-        self.count
+        self.h0
     }
 }
 
@@ -897,7 +1153,7 @@ impl<T: Clone> Vec1<T> for Probe<T> {
         T: 'a;
 
     fn collect_from_iter<I: Iterator<Item = T>>(_iter: I) -> Self {
-        Probe { h0: 0, count: 0, trusted: false, _p: PhantomData }
+        Probe { h0: 0, trusted: false, _p: PhantomData }
     }
 
     fn uninit(_len: usize) -> Self::Uninit {
@@ -908,28 +1164,9 @@ impl<T: Clone> Vec1<T> for Probe<T> {
         &mut []
     }
 
-    fn collect_from_trusted<I: TrustedLen<Item = T>>(mut it: I) -> Self {
-        let h0 = hint(&it);
-        assert!(h0 <= PROBE_CAP, "announced length is within the range expected for the parameters");
-        let mut h = h0;
-        let mut count = 0usize;
-        while count <= PROBE_CAP {
-            match it.next() {
-                Some(_) => {
-                    assert!(h >= 1, "an item is yielded only while the current hint is positive");
-                    let h2 = hint(&it);
-                    assert!(h2 + 1 == h, "the hint drops by exactly one with every yielded item");
-                    h = h2;
-                },
-                None => {
-                    assert!(h == 0, "the iterator is exhausted only when its current hint is zero");
-                    break;
-                },
-            }
-            count += 1;
-        }
-        assert!(count == h0, "front iteration yields exactly the announced number of items");
-        Probe { h0, count, trusted: true, _p: PhantomData }
+    fn collect_from_trusted<I: TrustedLen<Item = T>>(it: I) -> Self {
+        let h0 = walk_front(it, PROBE_CAP);
+        Probe { h0, trusted: true, _p: PhantomData }
     }
 }
 
@@ -997,12 +1234,12 @@ h!(c09_linspace_i32, 10, gen_linspace_i32());
 h!(c09_linspace_f64, 10, gen_linspace_f64());
 
 // ---------------------------------------------------------------------------------------------
-// 11. concrete depth-2 pipelines (sanity witnesses for the induction argument; thorough only)
-//     and winsorize itself
+// 12. concrete depth-2/3 pipelines (sanity witnesses for the induction argument) and winsorize
+//     itself; thorough tier only
 // ---------------------------------------------------------------------------------------------
 
 pub fn pipe_vshift2<const N: usize>() -> bool {
-    let x: [Option<i32>; N] = kani::any();
+    let x: Vec<Option<i32>> = kani::any::<[Option<i32>; N]>().to_vec();
     let n1 = small_i32(-(N as i32) - 1, N as i32 + 1);
     let n2 = small_i32(-(N as i32) - 1, N as i32 + 1);
     let f1: Option<Option<i32>> = kani::any();
@@ -1012,41 +1249,41 @@ pub fn pipe_vshift2<const N: usize>() -> bool {
 }
 
 pub fn pipe_fill_vclip<const N: usize>() -> bool {
-    let x: [Option<i32>; N] = kani::any();
+    let x: Vec<Option<i32>> = kani::any::<[Option<i32>; N]>().to_vec();
     let d: Option<i32> = kani::any();
-    let lo: Option<i32> = kani::any();
-    let hi: Option<i32> = kani::any();
+    let lo: i32 = kani::any();
+    let hi: i32 = kani::any();
     let n = small_i32(-(N as i32) - 1, N as i32 + 1);
-    observe(ALL, || x.titer().fill(d).vclip(lo, hi), N + 1, Some(N));
-    observe(COLLECT | TOTAL, || x.titer().ffill(None).vclip(lo, hi).vshift(n, None), N + 1, Some(N));
+    observe(CW, || x.titer().fill(d).vclip(Some(lo), Some(hi)), N + 1, Some(N));
+    observe(COLLECT | TOTAL, || x.titer().ffill(None).vclip(Some(lo), None).vshift(n, None), N + 1, Some(N));
     true
 }
 
 #[cfg(feature = "thorough")]
-pub fn winsorize_vec<const N: usize>() -> bool {
-    use tevec::map::{MapValidFinal, WinsorizeMethod};
+pub fn winsorize_vec<const N: usize>(method: tevec::map::WinsorizeMethod) -> bool {
+    use tevec::map::MapValidFinal;
     let x: [i32; N] = small_arr();
     let v = x.to_vec();
-    let m: u8 = kani::any();
-    kani::assume(m < 2);
-    let method = if m == 0 { WinsorizeMethod::Median } else { WinsorizeMethod::Sigma };
     let q = small_i32(1, 3) as f64;
-    let ok = v.winsorize(method, Some(q)).is_ok();
-    if ok {
-        observe(
-            COLLECT | TOTAL,
-            || match v.winsorize(method, Some(q)) {
-                Ok(it) => it,
-                Err(_) => unreachable!(),
+    observe(
+        COLLECT | WALK,
+        || match v.winsorize(method, Some(q)) {
+            Ok(it) => it,
+            Err(_) => {
+                assert!(false, "winsorize (Median / Sigma) has no error path");
+                unreachable!()
             },
-            N + 1,
-            Some(N),
-        );
-    }
-    ok
+        },
+        N + 1,
+        Some(N),
+    );
+    true
 }
 
 h!(#[cfg(feature = "thorough")] c09_pipe_vshift_vshift_n2, 7, pipe_vshift2::<2>());
 h!(#[cfg(feature = "thorough")] c09_pipe_vshift_vshift_n3, 8, pipe_vshift2::<3>());
 h!(#[cfg(feature = "thorough")] c09_pipe_fill_vclip_n3, 8, pipe_fill_vclip::<3>());
-h!(#[cfg(feature = "thorough")] #[kani::stub(std::fmt::format, crate::util::fmt_stub)] c09_winsorize_n2, 8, winsorize_vec::<2>());
+h!(#[cfg(feature = "thorough")] #[kani::stub(std::fmt::format, crate::util::fmt_stub)] c09_winsorize_sigma_n2, 8,
+    winsorize_vec::<2>(tevec::map::WinsorizeMethod::Sigma));
+h!(#[cfg(feature = "thorough")] #[kani::stub(std::fmt::format, crate::util::fmt_stub)] c09_winsorize_median_n2, 8,
+    winsorize_vec::<2>(tevec::map::WinsorizeMethod::Median));
